@@ -47,7 +47,7 @@ META = {
                      'paper argument: chunk-boundary non-interference'],
     'assumptions': ['Twisted delivers the stream in order'],
     'decided': ['D1 layout agreement', 'D2 non-interference premises',
-                'D3 drain', 'D4 bounded stack', 'D5 mode-switch typestate',
+                'D3 drain', 'D4 bounded stack', 'D5 mode-switch typestate (incl. the receiver is set up - connectionAuthenticated - before leftover bytes are framed)',
                 'D6 line-mode premises (incl. the length limit is a limit on one '
                 'line)'],
     'undecided': ['the delivered sequence for concrete streams and '
